@@ -190,6 +190,12 @@ int main(int argc, char** argv) {
     // (only with an update bitset and not with the enforced dense encoding: otherwise every mirror's content is sent in every
     // sync, refreshed totals included, and an application has to consume them first)
     bool twoStep = f == F_ADD && pr.below(4) != 0 && useBitset && mode != onlyData;
+    // Without an update bitset a reduce sends every mirror and must leave each of them at the identity.  Two syncs follow
+    // each other here as well, but the way an application has to use such a field: what a broadcast put into a mirror is
+    // consumed (the mirror is cleared) before the next step, and the second step writes at masters only.  A mirror that was
+    // sent but not reset would be sent -- and counted -- a second time.
+    bool twoStepNB = f == F_ADD && !useBitset && !twoStep && pr.below(2) == 0;
+    if (twoStepNB) twoStep = true;
     if (twoStep && pr.below(3) != 0) { mode = noData; enforcedDataMode = mode; }   // let get_data_mode() choose
     // min / max fields (monotone reductions) also under bulk-asynchronous execution; only with the default (non-enforced) or
     // any enforced encoding; never for add fields
@@ -203,6 +209,9 @@ int main(int argc, char** argv) {
     vh::Rng wr(seed * 104729 + round * 64 + me);
     for (int step = 0; step < (twoStep ? 2 : 1); ++step) {
       unsigned nwrites = 0;
+      if (twoStepNB && step == 1)
+        for (uint32_t l = 0; l < G->size(); ++l)
+          if (!G->isOwned(G->getGID(l))) { auto& x = fld(G->getData(l), f); if (x.load() != mine[l]) x = 0; }   // changed by the sync (refreshed): consumed
       std::vector<uint32_t> pre(G->size());
       {
         VVL pv;
@@ -215,6 +224,7 @@ int main(int argc, char** argv) {
         (void)readable;
         // second step: masters, and mirrors that hold the identity or still their own first-step contribution (i.e. that the
         // first broadcast did not refresh); a refreshed mirror holds the total, which an application consumes first
+        if (step == 1 && twoStepNB && !G->isOwned(G->getGID(l))) eligible = false;
         if (step == 1 && !G->isOwned(G->getGID(l))) { uint32_t now = fld(G->getData(l), f).load(); if (!(now == 0 || (mine[l] != 0 && now == mine[l]))) eligible = false; }
         if (f == F_SET && (G->getGID(l) + (uint64_t)round) % H != me) eligible = false;     // one designated writer host per node
         if (!eligible || density == 0) continue;
